@@ -55,6 +55,13 @@ std::unique_ptr<ASTNode>
 instantiate_generic_function(const ASTNode *func,
                              const std::vector<std::string> &type_arguments);
 
+// ジェネリックimplブロックのメソッドをインスタンス化
+// method: impl Holder<T> for Box<T> { ... } 内のメソッドのASTノード
+// type_map: {"T" -> "long"} のような型パラメータ → 型引数のマッピング
+// 戻り値: 型パラメータを置換したメソッドの複製（所有権は呼び出し側）
+std::unique_ptr<ASTNode> instantiate_generic_impl_method(
+    const ASTNode *method, const std::map<std::string, std::string> &type_map);
+
 // v0.11.0: インスタンス化キャッシュ（パフォーマンス最適化）
 // キャッシュキーを生成: "function_name<type1,type2,...>"
 std::string generate_cache_key(const std::string &function_name,
